@@ -89,6 +89,17 @@ def record(prog, rng_seed):
             elif op == "gauss":
                 x = g.gauss(call.get("mu", 0), call.get("sigma", 1)); evs.append(dict(i=i, op="gauss", k=1))
                 if not math.isfinite(x): probs.append(("gauss:not-finite", "gauss returned %r" % x))
+            elif op == "gausses":     # n values at once = n single draws (for the stream) shifted and scaled
+                n, mu, sigma = call["n"], call.get("mu", 0), call.get("sigma", 1)
+                xs = g.gausses(n, mu, sigma)
+                for _ in range(len(xs)): evs.append(dict(i=i, op="gauss", k=1))
+                if len(xs) != n: probs.append(("gausses:count", "gausses(%d) returned %d values" % (n, len(xs))))
+                if not all(math.isfinite(x) for x in xs): probs.append(("gauss:not-finite", "gausses returned %r" % (xs,)))
+                if sigma == 0 and any(x != mu for x in xs): probs.append(("gausses:mu-sigma", "gausses(%d, %r, 0) returned %r" % (n, mu, xs)))
+            elif op == "randomsb":    # randoms with bounds
+                lo, hi, n = call["min"], call["max"], call["n"]
+                xs = g.randoms(n, lo, hi); evs.append(dict(i=i, op="randoms", n=n, ret=[limbs(int(round((x - lo) / (hi - lo) * M)) % M) for x in xs]))
+                if len(xs) != n or not all(lo <= x < hi for x in xs): probs.append(("random:contract-bounds", "randoms(%d,%r,%r) returned %r" % (n, lo, hi, xs)))
         except Exception as e:
             probs.append(("%s:raises:%s" % (op, type(e).__name__), "%s%r raised %s: %s" % (op, {k: v for k, v in call.items() if k not in ("i", "op")}, type(e).__name__, e)))
             break
@@ -104,9 +115,11 @@ def rand_prog(rng, ncalls=20):
         if k in live: continue
         prog.append(dict(i=k, op="new", seed=rng.choice(seeds))); live.append(k)
     for _ in range(ncalls):
-        i = rng.choice(live); op = rng.choice(["random", "randoms", "randint", "randints", "shuffle", "choice", "choicew", "choicew", "gauss", "gauss", "pyrandom", "pickle", "new", "random2"])
+        i = rng.choice(live); op = rng.choice(["random", "randoms", "randint", "randints", "shuffle", "choice", "choicew", "choicew", "gauss", "gauss", "pyrandom", "pickle", "new", "random2", "gausses", "randomsb"])
         if op == "random2": prog.append(dict(i=i, op="random", min=rng.choice([-3, 0, 5.5]), max=rng.choice([6, 7.25, 100])))
         elif op == "randoms": prog.append(dict(i=i, op=op, n=rng.randrange(0, 4)))
+        elif op == "gausses": mu, sg = rng.choice([(0, 1), (5, 0), (-2, 3)]); prog.append(dict(i=i, op=op, n=rng.randrange(0, 4), mu=mu, sigma=sg))
+        elif op == "randomsb": prog.append(dict(i=i, op=op, n=rng.randrange(0, 4), min=rng.choice([-3, 0, 5.5]), max=rng.choice([6, 7.25, 100])))
         elif op == "randint": a = rng.randrange(-5, 5); prog.append(dict(i=i, op=op, a=a, b=a + rng.randrange(0, 40)))
         elif op == "randints": a = rng.randrange(-5, 5); prog.append(dict(i=i, op=op, n=rng.randrange(0, 4), a=a, b=a + rng.randrange(0, 9)))
         elif op == "shuffle": prog.append(dict(i=i, op=op, n=rng.randrange(0, 7), inplace=rng.random() < .3))
